@@ -244,7 +244,7 @@ def _candidates(sc, prop):
     custom = getattr(prop, "shrink_candidates", None)
     if custom:
         yield from custom(sc)
-    frozen = set(getattr(prop, "shrink_frozen", ())) | {"sub_t", "horizon", "seed", "index", "id", "pool"}
+    frozen = set(getattr(prop, "shrink_frozen", ())) | {"sub_t", "sub2_t", "horizon", "seed", "index", "id", "pool"}
     items = [(p, n) for p, n in _paths(sc) if not (p and p[0] in ("seed", "index", "property"))]
     # replace an operator node by one of its inputs
     for p, n in items:
